@@ -221,7 +221,14 @@ pub(crate) fn validate_unsubscribe_packet_outbound(packet: &UnsubscribePacket) -
         return Err(GneissError::new_packet_validation(PacketType::Unsubscribe, message));
     }
 
-    // topic filters are checked in detail in the internal validator
+    // static topic filter rules; what depends on the server is checked by the internal validator at send time
+    for filter in &packet.topic_filters {
+        if !is_valid_topic_filter(filter, None) {
+            let message = "validate_unsubscribe_packet_outbound - invalid topic filter";
+            error!("{}", message);
+            return Err(GneissError::new_packet_validation(PacketType::Unsubscribe, message));
+        }
+    }
 
     validate_user_properties(&packet.user_properties, PacketType::Unsubscribe, "validate_unsubscribe_packet_outbound")?;
 
